@@ -95,9 +95,11 @@ func SimC02(c *CheckCtx, i int, r *Rng) error {
 	// the world already holds a complete set of outputs and a gengo.sum (there is something to damage),
 	// then one source edit gives the victim run work to do
 	var setup []Op
+	oldVersions := false
 	if r.P(0.85) {
 		setupRun := mkRun(true)
 		if !real && r.P(0.5) {
+			oldVersions = true
 			// the outputs on disk come from other generator versions: the victim run has to CHANGE files,
 			// so an output that silently stays as it was is visible
 			old := []proto.GenScript{Probe()}
@@ -124,7 +126,10 @@ func SimC02(c *CheckCtx, i int, r *Rng) error {
 		}
 	}
 	victim := mkRun(true)
-	if r.P(0.2) {
+	if r.P(0.2) || oldVersions {
+		// (the cache knows nothing about generator versions: only a forced run replaces the outputs of
+		// every package, cached ones included, so only then do "never failed" and "failed, then re-run"
+		// have to agree on every file)
 		victim.Args.Force = true
 	}
 	if singleCPU {
